@@ -54,6 +54,11 @@ def branch_inputs(rng, tier):
             b = es_frame(rng, rng.choice((17, 18)), 19); setf(b, 37, 3, st); fr.append(b)
             b = es_frame(rng, 17, 19); setf(b, 37, 3, st); setf(b, 32 + 37, 9, 0); fr.append(b)
             b = es_frame(rng, 17, 19); setf(b, 37, 3, st); setf(b, 32 + 14, 10, 0); fr.append(b)
+        # airspeed subtypes: vertical-rate code 0 (no information: no line), 1 (zero rate: line shown), 2, maximum; both signs
+        for st in (3, 4):
+            for code in (0, 1, 2, 511):
+                for sign in (0, 1):
+                    b = es_frame(rng, rng.choice((17, 18)), 19); setf(b, 37, 3, st); setf(b, 32 + 36, 1, sign); setf(b, 32 + 37, 9, code); fr.append(b)
         for _ in range(8):
             b = es_frame(rng, 17, 19); setf(b, 37, 3, 1)
             v = rng.choice((1, 2, 101, 500))
